@@ -2,7 +2,8 @@
    Property theorems only; each closed by [exact] of a lemma proved in Proofs/LinkC05.v.
    [hasher_ok], [hash] (an arbitrary function) and the codec registry are universally quantified. *)
 Require Import IP.Base.Bytes IP.DM.Value IP.Codec.Cbor IP.Link.LinkSys IP.Link.LinkSpec.
-Require Import IP.Proofs.LinkBase IP.Proofs.LinkC06 IP.Proofs.LinkC05.
+Require Import IP.Gen.FromGo IP.Proofs.CborEnc IP.Proofs.CborDec.
+Require Import IP.Proofs.LinkBase IP.Proofs.LinkC06 IP.Proofs.LinkC05 IP.Proofs.LinkCbor.
 Open Scope N_scope.
 
 (* after any history of store / compute / load operations, Store returns (status and link) exactly
@@ -87,7 +88,46 @@ Theorem C05_build_link_idem :
 Proof. exact build_link_idem. Qed.
 Print Assumptions C05_build_link_idem.
 
-(* the round-trip and order laws for the raw codec (dag-cbor's are C02's theorems; dag-json's C04's) *)
+(* the round-trip law for the raw codec *)
 Theorem C05_raw_roundtrips : roundtrips raw_codec (fun _ => True) (fun v => v).
 Proof. exact raw_roundtrips. Qed.
 Print Assumptions C05_raw_roundtrips.
+
+(* ---- dag-cbor: the two codec laws are discharged against coq/Codec/Cbor.v by C02's theorems
+   (encb_perm_invariant, decode_encode), so the statements below have no codec premise left *)
+
+Theorem C05_dagcbor_order_insensitive :
+  forall reject_tags : bool, order_insensitive perm_eq (dagcbor_codec reject_tags) keys_nodup.
+Proof. exact dagcbor_order_insensitive. Qed.
+Print Assumptions C05_dagcbor_order_insensitive.
+
+Theorem C05_dagcbor_roundtrips :
+  forall reject_tags : bool, roundtrips (dagcbor_codec reject_tags) dagcbor_dom (sort_maps rfc_ltb).
+Proof. exact dagcbor_roundtrips. Qed.
+Print Assumptions C05_dagcbor_roundtrips.
+
+(* under any registry that maps 0x71 to dag-cbor (the default registry does), for any hash: values
+   equal up to map entry order, with duplicate-free keys, get the same link *)
+Theorem C05_dagcbor_link_fn_perm :
+  forall (hasher_ok : N -> bool) (hash : N -> bytes -> bytes) (codecs : N -> option codec) (rt : bool),
+    codecs 113 = Some (dagcbor_codec rt) ->
+    forall (lp : lproto) (v1 v2 : dm),
+      lp_codec lp = 113 -> keys_nodup v1 -> keys_nodup v2 -> perm_eq v1 v2 ->
+      compute hasher_ok hash codecs lp v1 = compute hasher_ok hash codecs lp v2.
+Proof. exact dagcbor_link_fn_perm. Qed.
+Print Assumptions C05_dagcbor_link_fn_perm.
+
+(* ... and a stored dag-cbor link (CIDv1) loads back, with every load form, as the value with its
+   maps in RFC 7049 order and the stored bytes, which hash to the link *)
+Theorem C05_dagcbor_store_load :
+  forall (hasher_ok : N -> bool) (hash : N -> bytes -> bytes) (codecs : N -> option codec) (rt : bool),
+    codecs 113 = Some (dagcbor_codec rt) ->
+    forall (sk : skind) (tr : bool) (h1 h2 : list lop) (lp : lproto) (v : dm) (l : link) (b : bytes) (f : lform),
+      lp_version lp = 1 -> lp_codec lp = 113 -> dagcbor_dom v ->
+      store_plan hasher_ok hash codecs lp v = Some (l, b) ->
+      no_collision hasher_ok hash codecs sk (skey sk l) b (h1 ++ OStore lp v :: h2) ->
+      let st := snd (run hasher_ok hash codecs sk tr [] (h1 ++ OStore lp v :: h2)) in
+      load_any hasher_ok hash codecs f tr (honest_read sk st l) l = loaded f (sort_maps rfc_ltb v) b /\
+      verify hash l b = VOk.
+Proof. exact dagcbor_store_load. Qed.
+Print Assumptions C05_dagcbor_store_load.
